@@ -116,6 +116,7 @@ const (
 	ErrSignatureIncorrService
 	ErrContentSHA256Mismatch
 	ErrMissingDecodedContentLength
+	ErrIncompleteBody
 	ErrInvalidAccessKeyID
 	ErrRequestNotReadyYet
 	ErrMissingDateHeader
@@ -472,6 +473,11 @@ var errorCodeResponse = map[ErrorCode]APIError{
 		Code:           "MissingContentLength",
 		Description:    "You must provide the Content-Length HTTP header.",
 		HTTPStatusCode: http.StatusLengthRequired,
+	},
+	ErrIncompleteBody: {
+		Code:           "IncompleteBody",
+		Description:    "You did not provide the number of bytes specified by the Content-Length HTTP header.",
+		HTTPStatusCode: http.StatusBadRequest,
 	},
 	ErrMissingDateHeader: {
 		Code:           "AccessDenied",
